@@ -48,7 +48,7 @@ def make_sources(scratch):
 def expand_crate(scratch):
     """Macro-expanded text of the crate in the baseline configuration (default features), built in scratch."""
     # dependency artefacts are kept between runs (optional cache outside /tmp); the crate itself is always re-expanded
-    tdir = '/var/tmp/rarena-verif-cache/expand-target'
+    tdir = os.environ.get('VERIF_DEV_EXPAND_TARGET', '/var/tmp/rarena-verif-cache/expand-target')  # override: developer tools only
     try:
         os.makedirs(tdir, exist_ok=True)
     except OSError:
